@@ -204,7 +204,7 @@ theorem stoppedOf_finishStop (s : Sys) (n cid k : Nat) :
     by_cases hl : k < s.objs.length
     · rw [List.getElem?_eq_getElem hl]; simp [hl]
     · rw [List.getElem?_eq_none (Nat.le_of_not_lt hl)]
-      simp [hl, stoppedOfObjs, List.getElem?_eq_none (Nat.le_of_not_lt hl)]
+      simp [hl, stoppedOfObjs]
   · simp [e]
 
 theorem own_step (hinv : Inv s) (ht : s.threads[i]? = some t)
